@@ -71,8 +71,13 @@ theorem ply_spec_readback_vertex (c : Coding α) (f : SpecFile α) (hf : f.forma
   simp only [hfmt, hsum, Int.toNat_natCast, defaultReader, ← hbuilt, hvb, bind, Except.bind]
 
 /-- POINT-CLOUD FILES, composed to the mesh: a reference-encoded binary file without face element — vertex properties
-in ANY permutation, any mix of uchar / int / float / double, any extra properties — reads without error to the point
-cloud `0..n-1` whose attributes are the columns of the located readers -/
+in ANY permutation, any extra properties, any mix of uchar / int / float / double UNDER THE UNIFORM-TYPE GUARD ON RECOGNISED
+GROUPS (`hloc`: every built reader is `Located`; that is false e.g. for binary `red green blue uchar` + `alpha float`, where
+reader_vector4.go:73 forces the W type on the whole group — modelled by `forceTy`) — reads without error to the point
+cloud `0..n-1` whose attributes are the columns of the located readers.  `Located` says WHERE a reader reads and with
+which type, not under which NAME: to know which property an attribute came from combine with `ply_group_reader_located`
+(groups: the reader for names `ns` built on a header where `ns[k]` sits at position `idx[k]` is located at `idx`) and
+`ply_unclaimed_property_gets_reader` / `ply_unclaimed_reader_located` (unrecognised scalars). -/
 theorem ply_reads_spec_pointcloud (c : Coding α) (f : SpecFile α) (hf : f.format ≠ .ascii) (hface : f.face = none)
     (htyped : ∀ r ∈ f.verts, r.map Datum.ty = f.vprops.map (·.ty))
     (bl : List (Built × List Nat))
